@@ -459,10 +459,10 @@ func runC03(r *report.Report) {
 	if r.Tier == "thorough" {
 		n = 3
 	}
-	st := explore.Explore(explore.Config{Harness: "C03.frame", Params: mk(c03params{Mode: "decoder", SeqLen: n, Full: r.Tier == "thorough"}), Bound: 0, Workers: report.Workers(), Deadline: r.Deadline()})
+	st := explore.Explore(explore.Config{Harness: "C03.frame", Params: mk(c03params{Mode: "decoder", SeqLen: n, Full: r.Tier == "thorough"}), Bound: 0, MaxSteps: 1 << 30, Workers: report.Workers(), Deadline: r.Deadline()})
 	r.AddExploration("stream-decoder", "sweep", fmt.Sprintf("all sequences of 1-%d packets over a 21-packet catalogue x all listed fragmentations and truncations x read limit off/5000", n), st,
 		"one execution = one packet sequence with all its fragmentations; non-trivial = fragmentations decoded (counted)", "fragmentation")
-	st = explore.Explore(explore.Config{Harness: "C03.frame", Params: mk(c03params{Mode: "decoder-big"}), Bound: 0, Workers: 3, Deadline: r.Deadline()})
+	st = explore.Explore(explore.Config{Harness: "C03.frame", Params: mk(c03params{Mode: "decoder-big"}), Bound: 0, MaxSteps: 1 << 30, Workers: 3, Deadline: r.Deadline()})
 	r.AddExploration("stream-decoder-2MiB", "sweep", "PUBLISH packets with remaining length 2097151 / 2097152 / 2097153 (3- vs 4-byte length encoding) followed by a PINGREQ, 4 chunkings, cuts inside the header, 9 truncations, read limit 1 MiB", st,
 		"one execution = one size with its fragmentations; non-trivial = fragmentations decoded", "fragmentation")
 	st = explore.Explore(explore.Config{Harness: "C03.frame", Params: mk(c03params{Mode: "conn", SeqLen: n}), Bound: 2, FreeSwitch: true, Workers: report.Workers(), Deadline: r.Deadline()})
